@@ -525,6 +525,85 @@ def tsnap(t):
     return out
 
 
+def t_call(ctx, fail, t, cname, call, arg, log, seed):
+    """one read-only call on transform t; params / constants must not move"""
+    before = tsnap(t)
+    log.append(["call", call, arg])
+    np.random.seed(seed)
+    try:
+        with np.errstate(all="ignore"):
+            if call == "str":
+                str(t)
+            elif call == "params_sample":
+                t.params_sample(int(arg))
+            elif call == "params_logprior":
+                t.params_logprior()
+            else:
+                getattr(t, call)(np.array(arg, dtype=np.float64))
+        exc = ""
+    except Exception as e:   # a failing read-only call is not C12's business ...
+        exc = f"{type(e).__name__}: {e}"
+    after = tsnap(t)         # ... but it must not have moved anything either
+    ctx.count(("transform", cname, call, bool(exc)))
+    owner = "Transform"
+    meth = {"str": "__str__"}.get(call, call)
+    for klass in type(t).__mro__:
+        if meth in vars(klass):
+            owner = klass.__name__
+            break
+    for role in ("params", "constants"):
+        for fld, mode in (("values", "values-changed"), ("mins", "bounds-changed"),
+                          ("maxs", "bounds-changed")):
+            if not same_list(before[role][fld], after[role][fld]):
+                fail(f"C12/{owner}.{meth}/{role}-{mode}",
+                     {"transform": cname, "log": [list(e) for e in log], "before": before, "after": after,
+                      "exception": exc},
+                     f"{cname}().{call}(...) changed {role}.{fld}: "
+                     f"{before[role][fld]} -> {after[role][fld]}")
+
+
+def t_assign(ctx, fail, t, cname, role, how, name, val, log):
+    """one assignment to a parameter / constant of transform t; bounds must not move"""
+    before = tsnap(t)
+    vec = getattr(t, role)
+    log.append(["assign", role, how, name, val])
+    try:
+        if how == "attr":
+            setattr(t, name, val)
+        elif how == "key":
+            t[name] = val
+        elif how == "vec-key":
+            vec[name] = val
+        elif how == "all":
+            cur = [float(z) for z in vec.values]
+            cur[list(vec.names).index(name)] = val
+            vec.values = cur
+        else:
+            t.reset()
+    except ValueError:
+        pass
+    now = tsnap(t)
+    ctx.count()
+    for rl in ("params", "constants"):
+        for fld in ("mins", "maxs"):
+            if not same_list(before[rl][fld], now[rl][fld]):
+                fail(f"C12/transform-assign/{rl}-bounds-changed",
+                     {"transform": cname, "log": [list(e) for e in log], "before": before, "after": now},
+                     f"{cname}: an assignment changed {rl}.{fld}")
+
+
+def transform_replay(ctx, fail, rp):
+    """re-execute the log of a transform replay file"""
+    from hydrodiy.stat import transform as tr
+    t = tr.get_transform(rp["transform"])
+    log = []
+    for e in rp["log"]:
+        if e[0] == "call":
+            t_call(ctx, fail, t, rp["transform"], e[1], e[2], log, 0)
+        else:
+            t_assign(ctx, fail, t, rp["transform"], e[1], e[2], e[3], e[4], log)
+
+
 def transform_search(ctx, fail):
     from hydrodiy.stat import transform as tr
     rng = ctx.rng
@@ -532,9 +611,12 @@ def transform_search(ctx, fail):
     depth = ctx.scale(30, 60)
     for cname in tr.__all__:
         for it in range(nseq):
-            t = tr.get_transform(cname)
+            try:
+                t = tr.get_transform(cname)
+            except Exception:
+                break      # reported with the transform tables (C12/<class>.__init__/raises)
             log = []
-            fresh = tsnap(t)
+            cm.mark({"transform": cname, "sequence": it})
             for step in range(depth):
                 r = rng.random()
                 pn, cn = list(t.params.names), list(t.constants.names)
@@ -548,41 +630,8 @@ def transform_search(ctx, fail):
                          for _ in range(rng.choice([1, 3, 6]))]
                     if cname == "Softmax":
                         x = [[abs(u) / (4 * len(x)) if not math.isnan(u) else u for u in x]]
-                    before = tsnap(t)
-                    entry = ["call", call, ns if call == "params_sample" else x]
-                    log.append(entry)
-                    cm.mark({"transform": cname, "log": log})
-                    np.random.seed(rng.randrange(2 ** 31))
-                    try:
-                        with np.errstate(all="ignore"):
-                            if call == "str":
-                                str(t)
-                            elif call == "params_sample":
-                                t.params_sample(ns)
-                            elif call == "params_logprior":
-                                t.params_logprior()
-                            else:
-                                getattr(t, call)(np.array(x))
-                        exc = ""
-                    except Exception as e:   # a failing read-only call is not C12's business ...
-                        exc = f"{type(e).__name__}: {e}"
-                    after = tsnap(t)         # ... but it must not have moved anything either
-                    ctx.count(("transform", cname, call, bool(exc)))
-                    owner = "Transform"
-                    meth = {"str": "__str__"}.get(call, call)
-                    for klass in type(t).__mro__:
-                        if meth in vars(klass):
-                            owner = klass.__name__
-                            break
-                    for role in ("params", "constants"):
-                        for fld, mode in (("values", "values-changed"), ("mins", "bounds-changed"),
-                                          ("maxs", "bounds-changed")):
-                            if not same_list(before[role][fld], after[role][fld]):
-                                fail(f"C12/{owner}.{meth}/{role}-{mode}",
-                                     {"transform": cname, "log": log, "before": before, "after": after,
-                                      "exception": exc},
-                                     f"{cname}().{call}(...) changed {role}.{fld}: "
-                                     f"{before[role][fld]} -> {after[role][fld]}")
+                    t_call(ctx, fail, t, cname, call, ns if call == "params_sample" else x, log,
+                           rng.randrange(2 ** 31))
                 else:
                     # an assignment (through the transform or through its vectors)
                     role = "constants" if (cn and (not pn or rng.random() < 0.35)) else "params"
@@ -596,30 +645,7 @@ def transform_search(ctx, fail):
                     if math.isnan(val) and not vec.accept_nan and rng.random() < 0.7:
                         val = lo if math.isfinite(lo) else 0.5
                     how = rng.choice(["attr", "key", "vec-key", "all", "reset"])
-                    log.append(["assign", role, how, nms[i], val])
-                    try:
-                        if how == "attr":
-                            setattr(t, nms[i], val)
-                        elif how == "key":
-                            t[nms[i]] = val
-                        elif how == "vec-key":
-                            vec[nms[i]] = val
-                        elif how == "all":
-                            cur = [float(z) for z in vec.values]
-                            cur[i] = val
-                            vec.values = cur
-                        else:
-                            t.reset()
-                    except ValueError:
-                        pass
-                    now = tsnap(t)
-                    for rl in ("params", "constants"):
-                        for fld in ("mins", "maxs"):
-                            if not same_list(fresh[rl][fld], now[rl][fld]) and \
-                                    not any(e[0] == "call" for e in log):
-                                fail(f"C12/transform-assign/{rl}-bounds-changed",
-                                     {"transform": cname, "log": log, "fresh": fresh, "now": now},
-                                     f"{cname}: assignment changed {rl}.{fld}")
+                    t_assign(ctx, fail, t, cname, role, how, nms[i], val, log)
 
 
 # ----------------------------------------------------------------------------
@@ -729,7 +755,7 @@ def run(ctx):
             do_hist(ctor, list(seq), "exh1d3")
 
     # ---- random histories
-    for it in range(ctx.scale(1500, 20000)):
+    for it in range(ctx.scale(1500, 6000)):
         ctor = gen_ctor(rng, clean=(rng.random() < 0.6))
         try:
             v, _ = construct(Vector, ctor)
@@ -746,8 +772,17 @@ def run(ctx):
     from hydrodiy.stat import transform as tr
     tabs = ex.transform_tables(cm.REPO)
     for i, (cname, role, _t) in enumerate(tabs):
-        obj = getattr(tr, cname)()
-        o = snap(getattr(obj, role))
+        try:
+            obj = getattr(tr, cname)()
+            o = snap(getattr(obj, role))
+        except Exception as e:
+            # the class cannot even be instantiated: the case below cannot agree with the model
+            o = {"names": [f"{type(e).__name__}"], "mins": [], "maxs": [], "defaults": [], "values": [],
+                 "hit": False, "cb": False, "chb": False, "an": False}
+            cur_idx[0] = len(terms)
+            fail(f"C12/{cname}.__init__/raises", {"transform": cname, "log": []},
+                 f"{cname}() raised {type(e).__name__}: {e}")
+            cur_idx[0] = None
         terms.append(f"VTable {i}%nat {c_state(o)}")
         replays.append({"table": [cname, role], "impl": o})
         ctx.count(("table", cname, role))
@@ -765,6 +800,10 @@ def run(ctx):
     t0 = time.time()
 
     # ---- transforms
+    if getattr(ctx, "replay", None):
+        rp = ctx.replay.get("replay", ctx.replay)
+        if isinstance(rp, dict) and "transform" in rp:
+            transform_replay(ctx, fail, rp)
     transform_search(ctx, fail)
     tphase["transforms"] = round(time.time() - t0, 1)
     ctx.notes["phase_seconds"] = tphase
